@@ -160,3 +160,15 @@ Lemma popped_keeps rest qu :
   q_wasconsumed (popped rest qu) = q_wasconsumed qu /\ q_rr (popped rest qu) = q_rr qu /\
   q_munacked (popped rest qu) = q_munacked qu /\ q_mtotal (popped rest qu) = q_mtotal qu.
 Proof. destruct (popped_call rest qu) as [b ->]. cbn. repeat split. Qed.
+
+(* msgstorage.confirm touches the heap and the relay only *)
+Lemma queues_store_confirm s u : queues (store_confirm s u) = queues s.
+Proof.
+  unfold store_confirm. destruct (get_msg s u) as [m|]; auto. destruct (m_conf m); auto.
+  destruct (_ =? _)%Z; cbn; apply queues_upd_msg.
+Qed.
+Lemma conns_store_confirm s u : conns (store_confirm s u) = conns s.
+Proof.
+  unfold store_confirm. destruct (get_msg s u) as [m|]; auto. destruct (m_conf m); auto.
+  destruct (_ =? _)%Z; cbn; unfold upd_msg; destruct (get_msg s u); reflexivity.
+Qed.
